@@ -116,6 +116,7 @@ def atlas_body_docs():
         "/multi/same": {"post": op("same_schema_two_media", body={"content": {"application/json": {"schema": {"$ref": REF + "Other"}},
                                                                                 "application/x-www-form-urlencoded": {"schema": {"$ref": REF + "Other"}}}})},
         "/multipart/model": {"post": op("multipart_model", body={"content": {"multipart/form-data": {"schema": {"$ref": REF + "Upload"}}}})},
+        "/multipart/nullfirst": {"post": op("multipart_null_first", body={"content": {"multipart/form-data": {"schema": {"$ref": REF + "NullFirst"}}}})},
         "/octet/raw": {"post": op("octet_raw", body={"content": {"application/octet-stream": {"schema": {"type": "string", "format": "binary"}}}})},
         "/mixed/unsupported": {"post": op("mixed_unsupported", body={"content": {"application/xml": {"schema": {"type": "string"}}, "application/json": {"schema": {"$ref": REF + "Item"}},
                                                                                  "text/plain": {"schema": {"type": "string"}}, "application/vnd.x+json": {}}})},
@@ -126,7 +127,8 @@ def atlas_body_docs():
                   "ref_or_text": {"oneOf": [{"type": "integer"}, {"type": "string"}]}, "maybe_note": any_of({"type": "string"}, NULL),
                   "stamp": {"type": "string", "format": "date-time"}, "uid": {"type": "string", "format": "uuid"}, "lvl": any_of({"$ref": REF + "Level"}, NULL)},
                  required=["title", "count"])
-    return [("bodies", doc(paths, schemas={"Upload": upload}))]
+    nullfirst = obj({"a": {"anyOf": [NULL, {"type": "string"}]}, "b": any_of({"type": "string"}, NULL)}, required=["a", "b"])
+    return [("bodies", doc(paths, schemas={"Upload": upload, "NullFirst": nullfirst}))]
 
 
 def atlas_response_docs():
